@@ -5,7 +5,7 @@
 From Coq Require Import List NArith Arith Bool Lia.
 From ApiFu Require Import Base.Sexp Vld.Ast Vld.AstInd Vld.Inspect Vld.InspectProofs Vld.TypeInfoModel Vld.TypeInfoPure Vld.Enumerate
      Vld.ValidatorModel Vld.ValidSpec Vld.ProofsCommon Vld.ProofsCycles Vld.ProofsOrder Vld.ProofsTotal Vld.ProofsFields
-     Vld.ProofsMemo Vld.ProofsDepth Vld.ProofsOperations Vld.ProofsSecondary.
+     Vld.ProofsMemo Vld.ProofsDepth Vld.ProofsOperations Vld.ProofsSecondary Vld.ProofsDepthRule.
 Import ListNotations.
 
 Definition nosec (r : mres) : Prop := match r with MErr e => e_sec e = false \/ e_kind e = EDepth | _ => True end.
@@ -28,6 +28,24 @@ Qed.
 Definition sfine (s : selection) : Prop :=
   match s with SField fa _ n _ _ _ _ => name_eqb n n_typename = true \/ fa <> None | _ => False end.
 Definition ffine (s : selection) : Prop := match s with SField _ _ _ _ _ _ _ => sfine s | _ => True end.
+
+Definition tame (r : mres) : Prop := match r with MErr e => e_sec e = false | _ => True end.
+
+Lemma first_err_m_tame {X} (f : X -> memo -> mres * memo) l :
+  (forall x mm, In x l -> tame (fst (f x mm))) -> forall mm, tame (fst (first_err_m f l mm)).
+Proof.
+  induction l as [|x l IH]; intros H mm; [exact I |]. cbn [first_err_m].
+  pose proof (H x mm (or_introl eq_refl)) as Hx. destruct (f x mm) as [[| e | s0 |] mm']; cbn [fst] in *; try exact Hx; try exact I.
+  apply IH. intros y mm0 Hy. apply H. right. exact Hy.
+Qed.
+Lemma pairs_first_m_tame {X} (f : X -> X -> memo -> mres * memo) l :
+  (forall x y mm, In x l -> In y l -> tame (fst (f x y mm))) -> forall mm, tame (fst (pairs_first_m f l mm)).
+Proof.
+  induction l as [|x l IH]; intros H mm; [exact I |]. cbn [pairs_first_m].
+  assert (tame (fst (first_err_m (f x) l mm))) as Hx by (apply first_err_m_tame; intros y mm0 Hy; apply H; [left; reflexivity | right; exact Hy]).
+  destruct (first_err_m (f x) l mm) as [[| e | s0 |] mm']; cbn [fst] in *; try exact Hx; try exact I.
+  apply IH. intros y z mm0 Hy Hz. apply H; right; assumption.
+Qed.
 
 Section Merge.
   Variable pi : order.
@@ -195,5 +213,75 @@ Section Merge.
     pose proof (can_merge_nosec (max_depth A) m Hc) as Hk.
     destruct (can_merge repaired pi S A (max_depth A) m) as [| e1 | s1 |]; try exact Hst.
     intros e He. cbn [fst r_errs add_errs] in He. apply in_app_or in He as [He | [<- | []]]; [apply Hst; exact He | exact Hk].
+  Qed.
+
+  (** ** the same for the pass with the checked-pairs memo *)
+  Lemma args_check_tame X Y : tame (args_check repaired X Y).
+  Proof.
+    unfold args_check. destruct (negb _); [reflexivity |].
+    assert (forall l, tame (first_err (fun argB => match arg_last (a_name argB) (sel_args X) with
+                                                    | None => MErr (err2 EMergeArgs (sel_pos X) (sel_pos Y))
+                                                    | Some argA => if values_identical (a_value argA) (a_value argB) then MOk else MErr (err2 EMergeArgs (a_pos argA) (a_pos argB))
+                                                    end) l)) as H.
+    { induction l as [|b l IH]; [exact I |]. cbn [first_err]. destruct (arg_last (a_name b) (sel_args X)); [| reflexivity].
+      destruct (values_identical _ _); [exact IH | reflexivity]. }
+    apply H.
+  Qed.
+
+  Lemma same_shape_m_tame d : forall X Y mm,
+    sfine X -> field_ok A X -> sfine Y -> field_ok A Y -> Hle A d X -> Hle A d Y ->
+    tame (fst (same_shape_m repaired pi S A d X Y mm)).
+  Proof.
+    induction d as [|d IH]; intros X Y mm HX HXo HY HYo LX LY; [destruct LX |]. cbn [same_shape_m].
+    destruct (already (snd mm) X Y) as [seen ss']. destruct seen; [exact I |].
+    destruct (shape_type_fine X HX) as [tA ->]. destruct (shape_type_fine Y HY) as [tB ->].
+    destruct (shape_loop tA tB) as [[a b] | k]; [| reflexivity].
+    destruct (is_leaf_sty S a || is_leaf_sty S b); [destruct (sty_eqb a b); [exact I | reflexivity] |].
+    pose proof (add_selections_fine [] (sel_sub X) HXo fmP_nil) as H1.
+    destruct (add_selections repaired A [] (sel_sub X)) as [m1 v1 | e |] eqn:E1; [| destruct H1 | exact I].
+    pose proof (add_selections_fine m1 (sel_sub Y) HYo H1) as H2.
+    destruct (add_selections repaired A m1 (sel_sub Y)) as [m2 v2 | e |] eqn:E2; [| destruct H2 | exact I].
+    apply first_err_m_tame. intros [k l] mm0 Hg. apply (proj1 (order_in pi Hpi _ _)) in Hg. cbn [snd].
+    apply pairs_first_m_tame. intros x y mm1 Hx Hy.
+    destruct (H2 k l x Hg Hx) as [_ [Fx Ox]]. destruct (H2 k l y Hg Hy) as [_ [Fy Oy]].
+    apply IH; try assumption; apply (merged_Hle repaired A d X Y m1 v1 m2 v2 LX LY E1 E2 k l); assumption.
+  Qed.
+
+  Lemma can_merge_m_tame d : forall m mm, fmP m -> fm_Hle A d m -> tame (fst (can_merge_m repaired pi S A d m mm)).
+  Proof.
+    induction d as [|d IH]; intros m mm Hm Lm; cbn [can_merge_m];
+      (apply first_err_m_tame; intros [k l] mm0 Hg; apply (proj1 (order_in pi Hpi _ _)) in Hg; cbn [snd];
+       apply pairs_first_m_tame; intros x y mm1 Hx Hy;
+       destruct (Hm k l x Hg Hx) as [Ax [Fx Ox]]; destruct (Hm k l y Hg Hy) as [Ay [Fy Oy]];
+       pose proof (Lm k l x Hg Hx) as LX; pose proof (Lm k l y Hg Hy) as LY).
+    - destruct LX.
+    - unfold pair_check_m. destruct (already (fst mm1) (fst3 x) (fst3 y)) as [seen cm']. destruct seen; [exact I |].
+      pose proof (same_shape_m_tame (Datatypes.S d) (fst3 x) (fst3 y) (cm', snd mm1) Fx Ox Fy Oy LX LY) as Hs.
+      destruct (same_shape_m repaired pi S A (Datatypes.S d) (fst3 x) (fst3 y) (cm', snd mm1)) as [[| e | s0 |] mm2]; cbn [fst] in *; try exact Hs; try exact I.
+      destruct (snd (fst x)); [| congruence]. destruct (snd (fst y)); [| congruence].
+      destruct (name_eqb _ _ || _ || _); [| exact I].
+      destruct (negb _); [reflexivity |].
+      pose proof (args_check_tame (fst3 x) (fst3 y)) as Ha.
+      destruct (args_check repaired (fst3 x) (fst3 y)); cbn [fst]; try exact Ha; try exact I.
+      pose proof (add_selections_fine [] (sel_sub (fst3 x)) Ox fmP_nil) as H1.
+      destruct (add_selections repaired A [] (sel_sub (fst3 x))) as [m1 v1 | e |] eqn:E1; [| destruct H1 | exact I].
+      pose proof (add_selections_fine m1 (sel_sub (fst3 y)) Oy H1) as H2.
+      destruct (add_selections repaired A m1 (sel_sub (fst3 y))) as [m2 v2 | e |] eqn:E2; [| destruct H2 | exact I].
+      apply IH; [exact H2 |]. intros k' l' z Hk' Hz. apply (merged_Hle repaired A d (fst3 x) (fst3 y) m1 v1 m2 v2 LX LY E1 E2 k' l' z Hk' Hz).
+  Qed.
+
+  Hypothesis names_unique : NoDup (frag_names A).
+  Hypothesis acyclic : forall n, In n (frag_names A) -> ~ exists x, reach A n x /\ edge A x n.
+
+  Theorem merge_pass_m_primary st :
+    all_primary (r_errs (fst st)) -> all_primary (r_errs (fst (inspect (merge_enter_m repaired pi S A) (fun s => s) (tree_doc A) st))).
+  Proof.
+    apply (inspect_inv (fun st : rst * memo => all_primary (r_errs (fst st)))). intros n Hn st0 Hst. unfold merge_enter_m. destruct n; try exact Hst.
+    pose proof (selset_nodes_doc A _ Hn) as Hss.
+    pose proof (add_selections_fine [] (Some s) (fun ss E => ltac:(inversion E; subst; exact Hss)) fmP_nil) as Hc.
+    destruct (add_selections repaired A [] (Some s)) as [m v | e0 |] eqn:Ec; [| destruct Hc | exact Hst].
+    pose proof (can_merge_m_tame (max_depth A) m (snd st0) Hc (collected_Hle A names_unique acyclic s m v Hss Ec)) as Hk.
+    destruct (can_merge_m repaired pi S A (max_depth A) m (snd st0)) as [[| e1 | s1 |] mm]; cbn [fst] in *; try exact Hst.
+    cbn [r_errs add_errs]. apply all_primary_app; [exact Hst | intros e [<- | []]; exact Hk].
   Qed.
 End Merge.
